@@ -7,7 +7,8 @@ EXPLANATION = 'Mixed. P: writer.write_simple.write_to_file is executed symbolica
 def p_parts():
     from ._append import p_append
     from ._parts import p_parts as p_partnames
-    return [p_append, p_partnames]
+    from ._bookkeeping import p_bookkeeping
+    return [p_append, p_partnames, p_bookkeeping]
 
 
 def run(ctx):
